@@ -92,7 +92,9 @@ check('C17', 'model_checking',
       'under a complete pruning rule on the exported stabilizers/logicals of '
       'every (class, size) with d <= 5 (quick) / 6 (thorough); tiny codes are '
       'also brute-forced over all 4^n operators (C17_Brute.tla); the pruning '
-      'lemma is self-tested on every run by overstating d.',
+      'lemma is self-tested on every run by overstating d.  The other '
+      'direction (d is the weight of a genuine non-trivial logical operator) '
+      'is C17_Witness.tla on every code.',
       'DESIGN.md 4/C17',
       'Trusted: TLC; C01 for "zero syndrome and zero effect => stabilizer"; '
       'nothing claimed beyond the explored sizes.',
